@@ -171,6 +171,16 @@ def mk_obs(o, name='cv', analyse=True):
     import pyerrors as pe
     if o['src'] == 'cov':
         r = pe.cov_Obs(float(o['v']), float(o['e']) ** 2, name)
+    elif o.get('ar'):
+        # autocorrelated chain (AR(1)), a pure function of the spec
+        ar = o['ar']
+        rng = np.random.RandomState(ar['seed'])
+        xi = rng.normal(size=ar['n'])
+        z = np.empty(ar['n'])
+        z[0] = xi[0]
+        for t in range(1, ar['n']):
+            z[t] = ar['rho'] * z[t - 1] + math.sqrt(1 - ar['rho'] ** 2) * xi[t]
+        r = pe.Obs([o['v'] + o['e'] * z], ['A'])
     else:
         r = pe.Obs([np.array([o['v'] + o['e'] * z for z in o['z']], dtype=float)], ['A'])
     if analyse:
@@ -521,7 +531,14 @@ def views_case(draw, tier):
     if other['kind'] == 'obs':
         other['e'], _ = draw(error_value(sig))
         other['analysed'] = draw(st.booleans())
-    return {'a': a, 'other': other, 'sigma': sigma, 'analysed': draw(st.sampled_from([True, True, False]))}
+    spec = {'a': a, 'other': other, 'sigma': sigma, 'analysed': draw(st.sampled_from([True, True, False]))}
+    if draw(st.integers(0, 5)) == 0:
+        # an autocorrelated chain analysed with the user's own parameters: the views use the errors of *that* analysis
+        a.update({'src': 'mc', 'z': [], 'ar': {'seed': draw(st.integers(0, 10 ** 6)), 'rho': draw(st.sampled_from([0.6, 0.8, 0.9])),
+                                                 'n': draw(st.integers(40, 120))}})
+        spec['gm'] = draw(st.sampled_from([{'S': 0}, {'S': 0.0}, {'S': 6.0}, {'tau_exp': 4.0}, {'tau_exp': 8.0, 'N_sigma': 2}, {'S': 1.0, 'fft': False}]))
+        spec['analysed'] = True
+    return spec
 
 
 OPS = [('<', lambda p, q: p < q), ('<=', lambda p, q: p <= q), ('>', lambda p, q: p > q), ('>=', lambda p, q: p >= q)]
@@ -529,7 +546,27 @@ OPS = [('<', lambda p, q: p < q), ('<=', lambda p, q: p <= q), ('>', lambda p, q
 
 def views_oracle(spec):
     import pyerrors as pe
-    a = mk_obs(spec['a'], 'cv', analyse=spec['analysed'])
+    a = mk_obs(spec['a'], 'cv', analyse=spec['analysed'] and not spec.get('gm'))
+    extra_cls = []
+    if spec.get('gm'):
+        gm = dict(spec['gm'])
+        a.gamma_method(**gm)
+        Eu = float(a.dvalue)
+        b = mk_obs(spec['a'], 'cv', analyse=True)
+        Ed = float(b.dvalue)
+        if Eu > 0 and Ed > 0:
+            # move the central value between the two error bars: the outcome of the test tells which error was used
+            sg = float(spec['sigma'])
+            a2 = a + (sg * math.sqrt(Eu * Ed) - float(a.value))
+            a2.gamma_method(**gm)
+            E2, V2 = float(a2.dvalue), float(a2.value)
+            want = bool(abs(V2) <= sg * E2)
+            got = a2.is_zero_within_error(sg)
+            tiny2 = abs(V2) <= 1.01e-10 and all(float(np.max(np.abs(d))) <= 1.01e-10 for d in a2.deltas.values())
+            require(tiny2 or (isinstance(got, (bool, np.bool_)) and bool(got) == want), 'is_zero_within_error(%r) = %r, but |value| <= sigma * dvalue is %r for '
+                    'the error of the analysis that was run (gamma_method(**%r): %r; default parameters would give %r)' % (sg, got, want, gm, E2, Ed), V2)
+            require(float(a2.dvalue) == E2, 'is_zero_within_error changed the error of the observable from %r to %r' % (E2, float(a2.dvalue)))
+            extra_cls.append('zero_test:user_analysis:' + ('differs_from_default' if abs(Eu - Ed) > 1e-3 * Ed else 'same_as_default'))
     V = float(a.value)
     ot = spec['other']
     rel = ot['rel']
@@ -591,7 +628,8 @@ def views_oracle(spec):
         if not tiny:
             got1 = a.is_zero_within_error()
             require(bool(got1) == bool(abs(V) <= E), 'is_zero_within_error() = %r, but |value| <= dvalue is %r' % (got1, abs(V) <= E), V, E)
-    return {'nt': nt, 'cls': cls}
+        require(float(a.dvalue) == E, 'is_zero_within_error changed the error of the observable from %r to %r' % (E, float(a.dvalue)))
+    return {'nt': nt or bool(extra_cls), 'cls': cls + extra_cls}
 
 
 # ----------------------------------------------------------------------------------------------
